@@ -193,9 +193,6 @@ Print Assumptions C14_substitute_count_refuted.
 Theorem C14_assoc_refuted : refutes w_assoc_order = true.
 Proof. exact assoc_refuted. Qed.
 Print Assumptions C14_assoc_refuted.
-Theorem C14_search_refuted : refutes w_search_empty = true.
-Proof. exact search_refuted. Qed.
-Print Assumptions C14_search_refuted.
 Theorem C14_mismatch_refuted : refutes w_mismatch_from_end = true /\ refutes w_mismatch_start = true.
 Proof. exact mismatch_refuted. Qed.
 Print Assumptions C14_mismatch_refuted.
